@@ -46,6 +46,22 @@ def build_map(clsname, rows, how="ctor", rng=None):
     return m
 
 
+def tiled(fn, a, b, n, rng):
+    """the n x n pairwise matrix assembled from windowed calls fn(a, b, rst, rsp, cst, csp) over a random tiling (row and
+    column cuts chosen independently, so most tiles are off-diagonal and not square); one row band uses the row window alone"""
+    def cuts():
+        k = sorted(set([0, n] + [rng.randrange(0, n + 1) for _ in range(rng.randrange(1, 4))]))
+        return list(zip(k, k[1:]))
+    out = np.full((n, n), np.nan)
+    for bi, (r0, r1) in enumerate(cuts()):
+        if bi == 0 and rng.random() < 0.5:
+            out[r0:r1, :] = np.asarray(fn(a, b, r0, r1), dtype=float)
+            continue
+        for c0, c1 in cuts():
+            out[r0:r1, c0:c1] = np.asarray(fn(a, b, r0, r1, c0, c1), dtype=float)
+    return out
+
+
 def map_case(cid, clsname, rows, queries, how="ctor", rng=None):
     c = {"id": cid, "kind": "map", "cls": clsname, "rows": [list(r) for r in rows], "G": G, "q": [list(q) for q in queries], "err": None}
     S = 1
@@ -78,11 +94,14 @@ def map_case(cid, clsname, rows, queries, how="ctor", rng=None):
             c["iv"] = lat(np.where(np.isnan(iv), 0.0, iv), S * G, ok).tolist(); c["ilat"] = ok[0]
             d1 = np.asarray(m.gdist1g(m.vrnt_chrgrp, m.vrnt_genpos), dtype=float)
             c["d1inf"] = [bool(np.isinf(x)) for x in d1]; c["d1"] = lat(d1, G, dok).tolist()
-            d2 = np.asarray(m.gdist2g(m.vrnt_chrgrp, m.vrnt_genpos), dtype=float)
+            win = rng is not None and rng.random() < 0.6
+            d2 = tiled(m.gdist2g, m.vrnt_chrgrp, m.vrnt_genpos, len(rows), rng) if win else \
+                np.asarray(m.gdist2g(m.vrnt_chrgrp, m.vrnt_genpos), dtype=float)
+            c["windows"] = bool(win)
             c["d2inf"] = np.isinf(d2).tolist(); c["d2"] = lat(d2, G, dok).tolist()
             p1 = np.asarray(m.gdist1p(qc, qp), dtype=float)
             c["p1inf"] = [bool(not np.isfinite(x)) for x in p1]; c["p1"] = lat(np.where(np.isfinite(p1), p1, 0.0), S * G, dok).tolist()
-            p2 = np.asarray(m.gdist2p(qc, qp), dtype=float)
+            p2 = tiled(m.gdist2p, qc, qp, len(qs), rng) if win else np.asarray(m.gdist2p(qc, qp), dtype=float)
             c["p2inf"] = (~np.isfinite(p2)).tolist(); c["p2"] = lat(np.where(np.isfinite(p2), p2, 0.0), S * G, dok).tolist()
             c["dlat"] = dok[0]
             # interp_gmap: a new map at the query markers carries the interpolated positions
@@ -141,7 +160,7 @@ def run(ctx):
                 rng.shuffle(o)
             qs = [(rng.choice([r[0] for r in rows] + [9]), rng.choice([0, 1, 2, 3, 4, 6])) for _ in range(5)]
             for clsname in ("StandardGeneticMap", "ExtendedGeneticMap"):
-                allc.append(map_case(len(allc) + 1, clsname, o, qs))
+                allc.append(map_case(len(allc) + 1, clsname, o, qs, "ctor", rng))
     # (B) larger random maps
     for _ in range(120 if thorough else 40):
         rows = []
@@ -154,7 +173,7 @@ def run(ctx):
         rng.shuffle(rows)
         chs = [r_[0] for r_ in rows]
         qs = [(rng.choice(chs + [11]), rng.randrange(0, 40)) for _ in range(8)]
-        allc.append(map_case(len(allc) + 1, rng.choice(["StandardGeneticMap", "ExtendedGeneticMap"]), rows, qs))
+        allc.append(map_case(len(allc) + 1, rng.choice(["StandardGeneticMap", "ExtendedGeneticMap"]), rows, qs, "ctor", rng))
         # the same rows through the other ways of building a map (no grouping at construction, data-frame import,
         # in-place reordering followed by a new spline)
         how = HOWS[1 + len(allc) % 4]
